@@ -575,7 +575,10 @@ pub fn proxy_get(
     }
 
     // No trap, forward to target
-    proxy_get(interp, target, key, receiver)
+    interp.enter_native_recursion()?;
+    let result = proxy_get(interp, target, key, receiver);
+    interp.leave_native_recursion();
+    result
 }
 
 /// Proxy [[Set]] internal method
@@ -633,7 +636,10 @@ pub fn proxy_set(
     }
 
     // No trap, forward to target
-    proxy_set(interp, target, key, value, receiver)
+    interp.enter_native_recursion()?;
+    let result = proxy_set(interp, target, key, value, receiver);
+    interp.leave_native_recursion();
+    result
 }
 
 /// Proxy [[Has]] internal method (in operator)
@@ -674,7 +680,10 @@ pub fn proxy_has(
     }
 
     // No trap, forward to target
-    proxy_has(interp, target, key)
+    interp.enter_native_recursion()?;
+    let result = proxy_has(interp, target, key);
+    interp.leave_native_recursion();
+    result
 }
 
 /// Proxy [[Delete]] internal method
@@ -716,7 +725,10 @@ pub fn proxy_delete_property(
     }
 
     // No trap, forward to target
-    proxy_delete_property(interp, target, key)
+    interp.enter_native_recursion()?;
+    let result = proxy_delete_property(interp, target, key);
+    interp.leave_native_recursion();
+    result
 }
 
 /// Proxy [[GetOwnProperty]] internal method
@@ -756,7 +768,10 @@ pub fn proxy_get_own_property_descriptor(
     }
 
     // No trap, forward to target
-    proxy_get_own_property_descriptor(interp, target, key)
+    interp.enter_native_recursion()?;
+    let result = proxy_get_own_property_descriptor(interp, target, key);
+    interp.leave_native_recursion();
+    result
 }
 
 /// Proxy [[DefineOwnProperty]] internal method
@@ -799,7 +814,10 @@ pub fn proxy_define_property(
     }
 
     // No trap, forward to target
-    proxy_define_property(interp, target, key, descriptor)
+    interp.enter_native_recursion()?;
+    let result = proxy_define_property(interp, target, key, descriptor);
+    interp.leave_native_recursion();
+    result
 }
 
 /// Proxy [[GetPrototypeOf]] internal method
@@ -837,7 +855,10 @@ pub fn proxy_get_prototype_of(
     }
 
     // No trap, forward to target
-    proxy_get_prototype_of(interp, target)
+    interp.enter_native_recursion()?;
+    let result = proxy_get_prototype_of(interp, target);
+    interp.leave_native_recursion();
+    result
 }
 
 /// Proxy [[SetPrototypeOf]] internal method
@@ -883,7 +904,10 @@ pub fn proxy_set_prototype_of(
     }
 
     // No trap, forward to target
-    proxy_set_prototype_of(interp, target, proto)
+    interp.enter_native_recursion()?;
+    let result = proxy_set_prototype_of(interp, target, proto);
+    interp.leave_native_recursion();
+    result
 }
 
 /// Proxy [[IsExtensible]] internal method
@@ -916,7 +940,10 @@ pub fn proxy_is_extensible(interp: &mut Interpreter, obj: JsObjectRef) -> Result
     }
 
     // No trap, forward to target
-    proxy_is_extensible(interp, target)
+    interp.enter_native_recursion()?;
+    let result = proxy_is_extensible(interp, target);
+    interp.leave_native_recursion();
+    result
 }
 
 /// Proxy [[PreventExtensions]] internal method
@@ -953,7 +980,10 @@ pub fn proxy_prevent_extensions(
     }
 
     // No trap, forward to target
-    proxy_prevent_extensions(interp, target)
+    interp.enter_native_recursion()?;
+    let result = proxy_prevent_extensions(interp, target);
+    interp.leave_native_recursion();
+    result
 }
 
 /// Proxy [[OwnPropertyKeys]] internal method
@@ -984,7 +1014,10 @@ pub fn proxy_own_keys(interp: &mut Interpreter, obj: JsObjectRef) -> Result<Guar
     }
 
     // No trap, forward to target
-    proxy_own_keys(interp, target)
+    interp.enter_native_recursion()?;
+    let result = proxy_own_keys(interp, target);
+    interp.leave_native_recursion();
+    result
 }
 
 /// Proxy [[Call]] internal method (for function proxies)
